@@ -50,6 +50,9 @@ CATALOGUE = {
     # a parameter product: the parameter-parameter second derivative is non-zero
     "ParamProduct": dict(d=_d(["S", "I"], ["beta", "gamma"], [("beta*gamma*S", [T("S", "I")]), ("gamma*I", [D("I")])]),
                          theta=[[0.9, 0.7], [1.4, 0.4]], x0=[[2.0, 0.5], [1.0, 1.5]]),
+    # constant drift: the state becomes negative when gamma is large (a positive-data likelihood is then undefined)
+    "Drift": dict(d=_d(["S"], ["beta", "gamma"], odes=[("S", "beta - gamma")]),
+                  theta=[[60.0, 24.0], [30.0, 10.0]], x0=[[200.0], [150.0]]),
 }
 
 
@@ -61,6 +64,8 @@ def closed_form(name, theta, x0, t0, times):
         b, g = theta
         A = np.array([[-b, 0, 0], [b, -g, 0], [0, g, 0]], float)
         return np.array([expm(A * (t - t0)).dot(np.asarray(x0, float)) for t in times])
+    if name == "Drift":
+        return np.array([[x0[0] + (theta[0] - theta[1]) * (t - t0)] for t in times])
     if name == "Logistic":
         r, K = theta
         n0 = x0[0]
